@@ -900,6 +900,78 @@ def r20_rev_suffix(text):
     return []
 
 
+# ---------------------------------------------------------------- R21 unfold Option/Result::map / and_then (repair only)
+def _recv_start(m, dot):
+    """start of the receiver expression whose last `.` is at `dot`: SEG(.SEG)* with SEG = path-ident + postfix
+    call/index groups + `?`, or one parenthesised group."""
+    k = dot
+    while True:
+        j = skip_ws_back(m, k)
+        if j < 0:
+            raise Unsupported("R21: no receiver")
+        while j >= 0 and m[j] in ")]?":
+            if m[j] == "?":
+                j -= 1
+            else:
+                j = match_open(m, j) - 1
+        e = j + 1
+        while j >= 0 and (m[j].isalnum() or m[j] == "_" or (m[j] == ":" and j > 0 and (m[j - 1] == ":" or m[j + 1] == ":"))):
+            j -= 1
+        start = j + 1
+        if start == e:
+            # no identifier: the segment must have been a parenthesised group
+            if m[e] not in "([":
+                raise Unsupported("R21: receiver shape")
+            return e
+        if m[start:e] in ("return", "let", "mut", "in", "if", "match", "else", "move", "break"):
+            raise Unsupported("R21: receiver shape")
+        pj = skip_ws_back(m, start)
+        if pj >= 0 and m[pj] == "." and not (pj > 0 and m[pj - 1] == "."):
+            k = pj
+            continue
+        return start
+
+
+def unfold_combinator(text, off, variant):
+    """`RECV.map(|x| BODY)` -> `(match RECV { Ok(x) => Ok(BODY), Err(uf_e_) => Err(uf_e_) })` (variant "Result") or
+    `(match RECV { Some(x) => Some(BODY), None => None })` (variant "Option"); `and_then` likewise without the re-wrapping.
+    These are the std definitions of the combinators. Used ONLY by the repair loop, for a closure Verus rejected
+    because it captures a mutable reference, at the site Verus named. Returns (edits, closure start)."""
+    m = mask(text)
+    best = None
+    for mt in re.finditer(r"\.\s*(map|and_then)\s*\(\s*(?:move\s+)?\|", m):
+        op = m.index("(", mt.start())
+        cp = match_close(m, op)
+        if op <= off <= cp and (best is None or op > best[1]):
+            best = (mt, op, cp)
+    if best is None:
+        raise Unsupported("R21: no map/and_then closure at the reported site")
+    mt, op, cp = best
+    bar1 = mt.end() - 1
+    bar2 = m.index("|", bar1 + 1)
+    param = text[bar1 + 1:bar2].strip()
+    if not re.fullmatch(r"(mut\s+)?[a-z_][A-Za-z0-9_]*", param):
+        raise Unsupported("R21: closure parameter is not a plain variable")
+    body_s = skip_ws(m, bar2 + 1)
+    body_e = cp
+    while body_e > body_s and m[body_e - 1].isspace():
+        body_e -= 1
+    if m[body_e - 1] == ",":
+        body_e -= 1
+    dot = mt.start()
+    rs = _recv_start(m, dot)
+    which = mt.group(1)
+    if variant == "Result":
+        some, none_arm = "Ok", "Err(uf_e_) => Err(uf_e_)"
+    else:
+        some, none_arm = "Some", "None => None"
+    if which == "map":
+        head, tail = " { %s(%s) => %s(" % (some, param, some), "), %s })" % none_arm
+    else:
+        head, tail = " { %s(%s) => " % (some, param), ", %s })" % none_arm
+    return [Edit(rs, rs, "(match ", "R21"), Edit(dot, body_s, head, "R21"), Edit(body_e, cp + 1, tail, "R21")], bar1
+
+
 # ---------------------------------------------------------------- R14 const fn
 def r14_const_fn(text):
     m = mask(text)
@@ -938,7 +1010,7 @@ TABLE = {
 }
 ORDER = ["R2", "R1", "R1p", "R14", "R4", "R3", "R5", "R6", "R15", "R13", "R11", "R7", "R8", "R12", "R17", "R18", "R19", "R20", "R10", "R16"]
 
-EXEC_TOUCHING = {"R3", "R4", "R6", "R7", "R8", "R10", "R11", "R12", "R13", "R14", "R15", "R16", "R17", "R18", "R19", "R20"}
+EXEC_TOUCHING = {"R3", "R4", "R6", "R7", "R8", "R10", "R11", "R12", "R13", "R14", "R15", "R16", "R17", "R18", "R19", "R20", "R21"}
 
 
 def apply_rewrites(text, enabled, opts=None):
